@@ -63,6 +63,7 @@ const (
 	sfInvalidOrigin = 2
 	sfExpiredKey    = 3
 	sfNonUTF8Body   = 4 // O signs and sends a JSON body that is not UTF-8
+	sfOverlongName  = 5 // O's DNS name has 256 characters (grammar: 1*255); recorded, not judged
 )
 
 var senderNames = []string{"direct", "client", "client_api"}
@@ -140,7 +141,7 @@ func body(r *sim.Run) {
 	s.wire = t.Bool()
 	s.callback = t.Bool()
 	s.vmode = t.Weighted([]int{7, 3})
-	senderFault := t.Weighted([]int{16, 1, 1, 1, 1})
+	senderFault := t.Weighted([]int{48, 3, 3, 3, 3, 1})
 	if senderFault == sfNonUTF8Body && s.senderMode == sendAPI {
 		s.senderMode = sendClient
 	}
@@ -150,6 +151,9 @@ func body(r *sim.Run) {
 	oName := validNames[idx[0]]
 	if senderFault == sfInvalidOrigin {
 		oName = sim.Pick(t, invalidNames)
+	}
+	if senderFault == sfOverlongName {
+		oName = strings.Repeat("a", 252) + ".org"
 	}
 	nD := 1
 	if s.callback {
@@ -248,6 +252,8 @@ func body(r *sim.Run) {
 		// key model at the receipt time D states (keyExpectation)
 		s.envEvents = append(s.envEvents, "signed_with_expired_key")
 		r.Fault("signed_with_expired_key")
+	case sfOverlongName:
+		s.senderMark = &mark{class: neutral, kind: "origin_dns_name_over_255"}
 	case sfNonUTF8Body:
 		s.senderMark = &mark{class: fault, kind: "non_utf8_body_signed", oracle: "refuse_body_format", codes: []int{400}}
 	}
@@ -262,6 +268,15 @@ func body(r *sim.Run) {
 	r.Logf("t=%v world: O=%q keys=%v validFor=%v D=%q callback=%v foreign=%q third=%q verifier=%s sender=%s wire=%v",
 		r.Now(), oName, keyDesc, s.O.ValidFor, s.dNames, s.callback, s.foreign, s.third, vdesc, senderNames[s.senderMode], s.wire)
 
+	if len(signers) > 1 {
+		r.Probe("double_signed_request")
+	}
+	if sg.dest != s.dNames[0] && senderFault != sfForeignDest {
+		r.Probe("signed_for_secondary_local_name")
+	}
+	r.Probe([]string{"delivery_object", "delivery_wire"}[map[bool]int{false: 0, true: 1}[s.wire]])
+	r.Probe([]string{"verifier_keyring", "verifier_ledger"}[s.vmode])
+	r.Probe("sender_" + senderNames[s.senderMode])
 	ctx := context.Background()
 	if s.senderMode == sendAPI {
 		s.sendViaAPI(ctx, signers[0])
@@ -270,6 +285,7 @@ func body(r *sim.Run) {
 		sg.method = methodArg
 		if t.Chance(150) {
 			methodArg = strings.ToLower(methodArg) // NewFederationRequest upper-cases
+			r.Probe("lowercase_method_argument")
 		}
 		sg.uri = genURI(t)
 		wantBody := 850
@@ -287,6 +303,7 @@ func body(r *sim.Run) {
 		originArg := spec.ServerName(oName)
 		if t.Chance(200) {
 			originArg = "" // Sign fills it in
+			r.Probe("origin_left_to_Sign")
 		}
 		fr := fclient.NewFederationRequest(methodArg, originArg, spec.ServerName(sg.dest), sg.uri)
 		var err error
@@ -459,7 +476,7 @@ func (s *sce) RoundTrip(req *http.Request) (*http.Response, error) {
 		e.okeys = append(e.okeys, string(k.ID))
 	}
 	nT := t.Weighted([]int{4, 6, 2})
-	haveFault := s.senderMark != nil
+	haveFault := s.senderMark != nil && s.senderMark.class == fault
 	for i := 0; i < nT; i++ {
 		class := t.Weighted([]int{3, 2, 7})
 		if class == fault && haveFault {
@@ -775,10 +792,13 @@ func (s *sce) judge(d *delivery) {
 			if len(neutrals) == 1 && d.keyAccept {
 				pre = "sole_neutral" // nothing else could explain a refusal
 			}
-			if accepted {
+			switch {
+			case accepted:
 				r.Probe(pre + "_accepted:" + k)
-			} else {
+			case pre == "sole_neutral":
 				r.Probe(fmt.Sprintf("%s_refused:%s:%d", pre, k, d.code))
+			default:
+				r.Probe(pre + "_refused:" + k)
 			}
 		}
 		if len(neutrals) == 0 {
